@@ -186,44 +186,45 @@ def run(ctx):
     calls = [i for i in g.insts() if i.op == 'call' and i.callee == '@mult_and_xor_row']
     if not calls:
         raise AnalysisBroken('anchor vanished: get_inverse_rows does not call mult_and_xor_row')
-    for c in calls:
-        gep = g.defs.get(strip_ptr_casts(g, c.ops[1]))
-        sel = None
-        if gep is not None and gep.op == 'getelementptr':
-            idx = g.defs.get(strip_int_casts(g, gep.ops[-1]))
-            if idx is not None and idx.op == 'mul':
-                sel = [strip_int_casts(g, o) for o in idx.ops]
-        cur = None
-        for v in sel or []:
-            d = g.defs.get(v)
-            if d is not None and d.op == 'phi' and any(x == '0' for x, _ in d.incoming):
-                cur = d
-        inst = 'missing-data row selector (second argument of mult_and_xor_row)'
-        if cur is None:
-            r.fail(inst, func=g.name, sig=f'row selector {Cg.val(c.ops[1])[:60]}', loc=c.loc,
-                   msg=f'the source row is {Cg.val(c.ops[1])}: not indexed by a counter that walks the missing-data rows')
-            continue
-        incs = [i for i in g.insts() if i.op == 'add' and cur.res in i.ops and '1' in i.ops]
-        if incs and any(i.bb is c.bb or c.bb in reachable_from(i.bb) and i.bb in reachable_from(c.bb) for i in incs) and any(i.bb is c.bb for i in incs):
-            r.ok(inst + ' advances with each missing column', func=g.name, loc=c.loc)
+    from ..poly import PolyCtx, Poly
+    from ..loops import loops_of, innermost
+    pcg = PolyCtx(P, g, Cg)
+    LSg = loops_of(P, g, pcg)
+    def cursor_check(ptr_operand, at_block, inst, what, loc):
+        """the offset of ptr_operand uses exactly one counter of the innermost loop that starts at 0 and is incremented by one in
+        the iterations that pass at_block (and only there is irrelevant: the other branch has its own counter)"""
+        L0 = innermost(LSg, at_block)
+        if L0 is None:
+            r.fail(inst, func=g.name, sig=f'{what} outside the column loop', loc=loc, msg=f'{what} is not inside the loop over the columns')
+            return
+        L = L0.via(at_block)
+        root, off = L.pc.ptr(ptr_operand)
+        cands = []
+        for phi in L.phis:
+            if phi.res in off.atoms():
+                init, step = L.recurrence(phi)
+                cands.append((phi, init, step))
+        walking = [(p, i0, st) for p, i0, st in cands if st is not None and st == Poly.const(1) and i0 is not None and not isinstance(i0, tuple) and i0.is_zero()]
+        # the column index j itself (bounded by k in the header) is not a cursor of its own branch
+        hg = {gd.iv for gd in L0.guards() if gd.block is L0.header}
+        own = [w for w in walking if w[0].res not in hg]
+        if own:
+            r.ok(inst + f': counter {own[0][0].res} starts at 0 and advances by one in this branch', func=g.name, loc=loc, facts={'offset': str(off)})
+        elif cands and all(st is not None and st.is_zero() for _, _, st in cands if _ .res not in hg) and any(p.res not in hg for p, _, _ in cands):
+            r.fail(inst, func=g.name, sig=f'{what}: cursor not advanced in its branch', loc=loc,
+                   msg=f'{what} is indexed by a cursor that is not incremented where it is used (offset {off}): every column of this kind lands on the first row/column')
         else:
-            r.fail(inst, func=g.name, sig='row cursor not advanced in the missing-column branch', loc=c.loc, msg='the cursor selecting the inverse row is not incremented where it is used')
+            r.fail(inst, func=g.name, sig=f'{what}: offset {str(off)[:50]} has no walking counter', loc=loc,
+                   msg=f'{what} has offset {off}: not indexed by a counter that starts at 0 and advances by one with each column of its kind')
+    for c in calls:
+        cursor_check(c.ops[1], c.bb, 'missing-data row selector (second argument of mult_and_xor_row)', 'the inverse row selected for a missing data column', c.loc)
     # available cursor: xor-store index (l*k) + cursor
-    xs = [i for i in g.insts() if i.op == 'store' and g.defs.get(strip_int_casts(g, i.ops[0])) is not None and g.defs[strip_int_casts(g, i.ops[0])].op == 'xor']
-    okx = False
-    for s in xs:
-        gep = g.defs.get(s.ops[1])
-        idx = g.defs.get(strip_int_casts(g, gep.ops[-1])) if gep is not None and gep.op == 'getelementptr' else None
-        if idx is not None and idx.op == 'add':
-            for o in idx.ops:
-                d = g.defs.get(strip_int_casts(g, o))
-                if d is not None and d.op == 'phi' and any(x == '0' for x, _ in d.incoming):
-                    if any(i.op == 'add' and d.res in i.ops and '1' in i.ops and i.bb is s.bb for i in g.insts()):
-                        okx = True
-    if okx:
-        r.ok('available-column cursor advances with each available column', func=g.name, loc=xs[0].loc if xs else g.mod.src)
-    else:
-        r.fail('available-column cursor', func=g.name, sig='available cursor not advanced', loc=(xs[0].loc if xs else g.mod.src), msg='the cursor for available columns is not incremented where it is used')
+    xs = [i for i in g.insts() if i.op == 'store' and g.defs.get(strip_int_casts(g, i.ops[0])) is not None and g.defs[strip_int_casts(g, i.ops[0])].op == 'xor'
+          and innermost(LSg, i.bb) is not None and any(cc.bb in innermost(LSg, i.bb).body for cc in calls)]
+    if not xs:
+        r.fail('available-column cursor', func=g.name, sig='no xor-store for available columns', loc=g.mod.src, msg='no store of the form row[cursor] ^= coefficient in the column loop')
+    for s_ in xs[:1]:
+        cursor_check(s_.ops[1], s_.bb, 'available-column cursor', 'the destination column for an available data column', s_.loc)
     r.require_min(2)
 
     # ---------------- shared rules on this unit
